@@ -366,6 +366,8 @@ def float_leg(chunk, replay=None):
                             if rng.random() < 0.5:
                                 al[m] = rng.choice([0.0, 0.1, 0.3, 0.5, 1 / 3, 0.9])
                         spec.append([[(xs[i] + xs[i + 1]) / 2, (ys[j] + ys[j + 1]) / 2, xs[i + 1] - xs[i], ys[j + 1] - ys[j]], al, rng.choice([0, 0, 1, 2])])
+            if rng.random() < 0.5:
+                rng.shuffle(spec)           # the order of the cells in the document must not matter
             ops = [rng.choice(["refine:0.2:1", "refine:0.5:1", "refine:1.0:1", "refine:0.95:2", "refine:0.4:3", "uniform", "griddify"]) for _ in range(rng.randint(1, 3))]
         if not spec:
             continue
